@@ -399,6 +399,19 @@ fn cli_case(ctx: &Ctx, ch: &mut Ch, scratch: &cli::Scratch) -> Outcome {
     Ok(())
 }
 
+/// Inputs kept from earlier findings (shrunk by hand where the generator's case was larger).
+const REGRESSIONS: &[&str] = &[
+    // Found by C03's generated part (a perturbation had put `_` under an arrow): well typed, and
+    // the checker crashes in the normaliser's context lookup. Recorded finding.
+    "(g : type) => (k : (int -> g) -> int) => (x : int -> _) => k x + k x",
+    "(g : type) => (x : int -> _) => (y : (int -> g) = x; a : (int -> g) = x; 0)",
+    "( g : type ) => ( late1 : int -> _ ) => lateg2 : ( type -> int -> g ) = ( b : type ) => late1 ; a : ( int -> true ) = late1 ; n : ( int -> g ) = lateg2 bool ; - 0",
+    // Neighbours that are handled.
+    "(g : type) => (k : (int -> g) -> int) => (x : int -> _) => k x",
+    "(x : int -> _) => (y : (int -> int) = x; a : (int -> int) = x; 0)",
+    "(g : type) => (x : _) => (y : g = x; a : g = x; 0)",
+];
+
 pub fn def(tier: Tier) -> CheckDef {
     let rounds = tier.pick(4, 60);
     let max_len = tier.pick(4, 5);
@@ -474,6 +487,23 @@ pub fn def(tier: Tier) -> CheckDef {
                     ReplayInput::Choices(c) => damaged_case(ctx, &mut Ch::new(c)),
                     _ => Err(Failure::new("this part replays from choices", "")),
                 })),
+            },
+            Part {
+                name: "regressions",
+                rounds: 1,
+                run: Box::new(|ctx, _| {
+                    if ctx.shard != 0 {
+                        return;
+                    }
+                    for src in REGRESSIONS {
+                        ctx.evaluated(1);
+                        match pipeline(Some(ctx), src, true) {
+                            Ok(stage) => classify(ctx, stage, src),
+                            Err(f) => ctx.settle(Err(f)),
+                        }
+                    }
+                }),
+                replay: None,
             },
             Part {
                 name: "checker",
